@@ -70,6 +70,7 @@ type Exec struct {
 	skolems              []*smt.Term
 	projMemo             map[[2]int]*smt.Term
 	keepHyp              map[int]bool
+	intWitnesses         []*smt.Term
 	deadline             time.Time
 	exprTypes            map[Expr]types.Type
 	oldSet               map[int]bool
